@@ -78,6 +78,12 @@ CLAIMS.update({
             "finite families, stated tolerances; threshold-ambiguous truncations skipped and counted"),
 })
 
+CLAIMS.update({
+    "C19": (E, "exploration", EN,
+            "every string derivable from calc_grammar within the depth bound (depth 1 over all NUMBER forms, dotted names, element->field, sin(.), atan2(.,.), + - * / ^ **, unary signs, parentheses; depth 2 over a reduced terminal set), generated by the grammar's own rules so the parse is known by construction, in item and attribute element mode: deferred value == guarded reference (bit exact / NaN aware / same exception type), immediate == unguarded reference (ZeroDivisionError on a zero divisor), fully parenthesised rendering == Python eval of the mirrored expression; repeated after every variable and element field was changed through the manager, including dependants defined from the expressions",
+            "terminal sets and depth stated in the evidence; exceptions compared by type"),
+})
+
 NOT_YET = "check under construction in this session; not yet claimed"
 
 
